@@ -160,6 +160,7 @@ class MemStreamTransport(_Scripted, AsyncStreamTransport):
         self.writable = not self.script.get("block_send", False)
         self._write_waiters: list[asyncio.Future[None]] = []
         self.on_send: Callable[[bytes], None] | None = None
+        self.send_error: BaseException | None = None
         self.on_close: Callable[[], None] | None = None
         self.total_received = 0
         self.stub = StubSocket(sockname, peername)
@@ -254,6 +255,8 @@ class MemStreamTransport(_Scripted, AsyncStreamTransport):
     def _commit(self, data: bytes) -> None:
         if self.closed:
             raise _utils.error_from_errno(_errno.ECONNABORTED)
+        if getattr(self, "send_error", None) is not None:
+            raise self.send_error  # persistent: the connection is broken for writing (e.g. the peer sent a RST)
         if self.eof_sent:
             raise make_error("BrokenPipeError")
         self.sent += data
